@@ -37,7 +37,7 @@ class QUICOutputbuilder:
                 if frame.frame_type == 0x06:
                     data = frame.crypto
                 elif frame.frame_type == 0xfe:
-                    data = frame.supported_version
+                    data = frame.payload
             if frame.frame_type in [0x08, 0x09, 0x0a, 0x0b, 0x0c, 0x0d, 0x0e, 0x0f]:
                 data = frame.stream_data
             elif data is None:
